@@ -202,6 +202,9 @@ def run_part(part, tier, workdir, seed):
     os.makedirs(workdir, exist_ok=True)
     log = os.path.join(workdir, 'kani-%s.log' % part['name'].replace(':', '_'))
     timeout = part.get('timeout_thorough', part.get('timeout', 1500)) if tier == 'thorough' else part.get('timeout', 1500)
+    # the registered timeouts were measured on an idle 16-core machine; they only guard against hangs, so they are
+    # scaled generously: a slow (loaded) machine must not turn a check into UNDECIDED
+    timeout = int(timeout * float(os.environ.get('VERIF_TIMEOUT_FACTOR', '3')))
     rc, out = run_cmd(cmd, cwd, timeout, log, mem_gb=part.get('mem_gb', 40))
     res['wall_s'] = time.time() - t0
     res['tool_output'] = out[-4000:]
